@@ -32,6 +32,8 @@ What the extraction changes, exhaustively (also reported in evidence):
   R8  `extract fragment`: a contiguous run of statements of a function body, delimited by two literal anchors, copied
       verbatim into a wrapper function written in the template (used where the rest of the body is outside Verus' subset);
   R6  every `rewrite` directive, verbatim, listed in the evidence as a trusted rewrite;
+  R9  (opt-in per directive, `normalize=ifelse`) every `if` without `else` gets an explicit empty `else {}`: the identity,
+      needed because the installed Verus treats a conditionally moved borrow-carrying value as dropped on both paths;
   R7  constants marked fold=1 are evaluated by the extractor (integer literals, other constants of the same file,
       + - * / << >> and integer casts) and emitted as a literal with the source expression in a comment.
 Everything else is byte-for-byte the text in /repo.  A missing item or anchor raises LostAnchor (exit 2).
@@ -143,6 +145,54 @@ def find_body_open(s, i):
             raise LostAnchor("item has no body")
         i += 1
     raise LostAnchor("no body")
+
+
+def add_explicit_else(body):
+    """R9: every `if` / `if let` without an `else` gets an explicit empty `else {}` (semantically the identity).
+    Needed because the installed Verus resolves a conditionally moved value that carries a mutable borrow as if it had
+    been dropped on both paths (`if b { consume(w); }` makes the consuming path contradictory): an unsoundness that the
+    explicit else avoids.  Match guards (`pat if c =>`) are left alone."""
+    out = []
+    i, n, count = 0, len(body), 0
+    while i < n:
+        j = _scan(body, i)
+        if j != i:
+            out.append(body[i:j])
+            i = j
+            continue
+        m = re.match(r"if\b", body[i:])
+        if m and (i == 0 or not (body[i - 1].isalnum() or body[i - 1] == "_")):
+            # find the `{` of the then-block at bracket depth 0; give up at `=>` (a match guard) or `;`
+            k, ok = i + 2, False
+            while k < n:
+                kk = _scan(body, k)
+                if kk != k:
+                    k = kk
+                    continue
+                c = body[k]
+                if c in "([":
+                    k = match_brace(body, k)
+                    continue
+                if body.startswith("=>", k) or c == ";":
+                    break
+                if c == "{":
+                    ok = True
+                    break
+                k += 1
+            if ok:
+                e = match_brace(body, k)
+                t = _skip_ws_comments(body, e)
+                if not re.match(r"else\b", body[t:]):
+                    # recurse into the condition+block text first, then append the else
+                    inner = add_explicit_else(body[k + 1:e - 1])
+                    out.append(body[i:k + 1] + inner[0] + "}" + " else {}")
+                    count += 1 + inner[1]
+                    i = e
+                    continue
+                # has an else: keep scanning inside normally
+        out.append(body[i])
+        i += 1
+    return "".join(out), count
 
 
 # ------------------------------------------------------------------ locating items
@@ -322,6 +372,13 @@ def apply_edits(fn_name, sig2, body2, rewrites, inserts, notes):
             body2 = rx.sub(lambda _m: new, body2)
             notes.append("R6: identifier rewrite in %s: `%s` => `%s`" % (fn_name, word, new))
             continue
+        if old.startswith("\x00o:"):
+            old = old[3:]
+            if body2.count(old) + sig2.count(old) >= 1:
+                body2 = body2.replace(old, new)
+                sig2 = sig2.replace(old, new)
+                notes.append("R6: rewrite in %s: `%s` => `%s`" % (fn_name, old, new))
+            continue
         if body2.count(old) + sig2.count(old) < 1:
             rx = _ws_regex(old)
             if not rx.search(body2):
@@ -358,7 +415,7 @@ def apply_edits(fn_name, sig2, body2, rewrites, inserts, notes):
 
 
 def extract_fn(repo, file, name, impl=None, nth=0, ret=None, spec="", inserts=(), rewrites=(), as_name=None,
-               trait=None, keep_asserts=False):
+               trait=None, keep_asserts=False, normalize=None):
     src = open(os.path.join(repo, file)).read()
     start, fnpos, body_open, end = find_fn(src, name, impl=impl, nth=nth, trait=trait)
     sig = src[start:body_open]
@@ -388,6 +445,10 @@ def extract_fn(repo, file, name, impl=None, nth=0, ret=None, spec="", inserts=()
     if nerr:
         ex.notes.append("R4: %d error payload expression(s) replaced by mk_err() in %s" % (nerr, ex.fn_name))
     sig2, body2 = apply_edits(ex.fn_name, sig2, body2, rewrites, inserts, ex.notes)
+    if normalize == "ifelse":
+        body2, nif = add_explicit_else(body2)
+        if nif:
+            ex.notes.append("R9: %d `if` without `else` got an explicit empty `else {}` in %s (identity; avoids a Verus resolution unsoundness for conditionally moved borrows)" % (nif, ex.fn_name))
     ex.text = sig2 + "\n" + spec + body2 + "\n"
     return ex
 
@@ -619,6 +680,12 @@ def _parse_fn_block(block):
             flush()
             rewrites.append((m.group(1).replace('\\"', '"'), m.group(2).replace('\\"', '"')))
             continue
+        m = re.match(r'rewrite_opt "(.*)" => "(.*)"$', st)
+        if m:
+            # a path normalisation that applies wherever the text occurs and is not an anchor (absent => nothing to do)
+            flush()
+            rewrites.append(("\x00o:" + m.group(1).replace('\\"', '"'), m.group(2).replace('\\"', '"')))
+            continue
         m = re.match(r'rewrite_word "(.*)" => "(.*)"$', st)
         if m:
             flush()
@@ -638,6 +705,9 @@ def expand(template_text, repo):
     originals = {}
     pos = 0
     out_len_lines = 0
+    # `/*@include name.inc@*/`: shared contract text (e.g. the std HashMap contract) kept in one file under contracts/verus
+    tdir = os.path.join(os.path.dirname(os.path.dirname(os.path.abspath(__file__))), "contracts", "verus")
+    template_text = re.sub(r"/\*@include\s+([\w.\-]+)\s*@\*/", lambda mm: open(os.path.join(tdir, mm.group(1))).read(), template_text)
 
     def emit(t):
         nonlocal out_len_lines
@@ -654,7 +724,7 @@ def expand(template_text, repo):
             spec, inserts, rewrites = _parse_fn_block(block)
             ex = extract_fn(repo, kv["file"], kv["name"], impl=kv.get("impl"), nth=int(kv.get("nth", 0)),
                             ret=kv.get("ret"), spec=spec, inserts=inserts, rewrites=rewrites, as_name=kv.get("as"),
-                            trait=kv.get("trait"))
+                            trait=kv.get("trait"), normalize=kv.get("normalize"))
             notes += ex.notes
             start_line = out_len_lines + 1
             emit(ex.text)
@@ -677,6 +747,10 @@ def expand(template_text, repo):
             fname = (kv.get("impl", "") + "::" if kv.get("impl") else "") + kv["name"]
             _spec, f_inserts, f_rewrites = _parse_fn_block(block)
             _sig, frag = apply_edits(fname + "[fragment]", "", frag, f_rewrites, f_inserts, notes)
+            if kv.get("normalize") == "ifelse":
+                frag, nif = add_explicit_else(frag)
+                if nif:
+                    notes.append("R9: %d `if` without `else` got an explicit empty `else {}` in %s[fragment]" % (nif, fname))
             notes.append("R8: fragment of %s (from `%s` up to `%s`) extracted verbatim and wrapped by the template" % (fname, fm.group(1), tm.group(1)))
             start_line = out_len_lines + 1
             emit(frag)
